@@ -408,3 +408,146 @@ def c16(case, obs, crash):
             if canon.diff(get(o0, "R"), get(o1, "R"), "R"):
                 f.append((None, "twin parsers fed the same history serialize differently: %s" % canon.diff(get(o0, "R"), get(o1, "R"), "R")))
     return f
+
+
+# ---------------------------------------------------------------- C06
+
+def cache_keys(S):
+    return {k: [e[0] for e in get(S, k)] for k in ("v9_t", "v9_o", "ix_t", "ix_o")}
+
+
+def cache_map(S, k):
+    return {e[0]: e[1:] for e in get(S, k)}
+
+
+def expected_caches(prev, R):
+    """previous caches + the templates reported in R, last definition wins; also whether a V9
+    packet failed (it may have cached the templates of its earlier flowsets)"""
+    exp = {m: dict(cache_map(prev, m)) for m in ("v9_t", "v9_o", "ix_t", "ix_o")}
+    v9_error = False
+    for e in R:
+        kind = elem_kind(e)
+        if kind == "V9":
+            for fs in get(elem_body(e), "flowsets"):
+                b = get(fs, "body")
+                if b[0][0] == "Template":
+                    for t in get(b[0][1], "templates"):
+                        exp["v9_t"][get(t, "template_id")] = [t]
+                elif b[0][0] == "OptionsTemplate":
+                    for t in get(b[0][1], "templates"):
+                        exp["v9_o"][get(t, "template_id")] = [t]
+        elif kind == "IPFix":
+            for fs in get(elem_body(e), "flowsets"):
+                b = get(fs, "body")
+                if b[0][0] == "Template":
+                    exp["ix_t"][get(b[0][1], "template_id")] = [b[0][1]]
+                elif b[0][0] == "OptionsTemplate":
+                    exp["ix_o"][get(b[0][1], "template_id")] = [b[0][1]]
+        elif kind == "Error":
+            rem = get(elem_body(e), "remaining")
+            if len(rem) >= 2 and rem[0] == 0 and rem[1] == 9:
+                v9_error = True
+    return exp, v9_error
+
+
+def caches_match(exp, S, maps):
+    for m in maps:
+        now = cache_map(S, m)
+        if set(now) != set(exp[m]):
+            return "%s holds ids %s, expected %s" % (m, sorted(now), sorted(exp[m]))
+        for tid in now:
+            d = canon.diff(exp[m][tid][0], now[tid][0], "%s[%d]" % (m, tid))
+            if d:
+                return d
+    return None
+
+
+def c06(case, obs, crash):
+    f = []
+    bp = by_parser(case, obs)
+    for k, pairs in bp.items():
+        prev = None
+        for op, o in pairs:
+            S = get(o, "S")
+            R = get(o, "R")
+            if S is None or not isinstance(R, list) or isinstance(R, canon.Pairs):
+                continue
+            if prev is None:
+                prev = canon.Pairs([(m, []) for m in ("v9_t", "v9_o", "ix_t", "ix_o")])
+            # (a) nothing evicted
+            pk = cache_keys(prev)
+            nk = cache_keys(S)
+            for m in pk:
+                gone = set(pk[m]) - set(nk[m])
+                if gone:
+                    f.append((None, "parser %d: ids %s evicted from %s" % (k, sorted(gone), m)))
+            exp, v9_error = expected_caches(prev, R)
+            for m in ("v9_t", "v9_o", "ix_t", "ix_o"):
+                now = cache_map(S, m)
+                if v9_error and m.startswith("v9"):
+                    # a V9 packet that failed part-way may have cached the templates of its earlier
+                    # flowsets (complete records of an allowed version): only monotonicity is demanded
+                    continue
+                if set(now) != set(exp[m]):
+                    f.append((None, "parser %d: %s holds ids %s, expected %s (previous + templates reported in this call)"
+                              % (k, m, sorted(now), sorted(exp[m]))))
+                    continue
+                for tid in now:
+                    d = canon.diff(exp[m][tid][0], now[tid][0], "%s[%d]" % (m, tid))
+                    if d:
+                        f.append((None, "parser %d: cache entry is not the latest definition received: %s" % (k, d)))
+            prev = S
+    return f
+
+
+# ---------------------------------------------------------------- C07
+
+def bodies_with_id(R, proto, tid):
+    """data bodies (Data / OptionsData) decoded for flowset/set id tid in packets of proto"""
+    out = []
+    for e in R:
+        if elem_kind(e) != proto:
+            continue
+        for fs in get(elem_body(e), "flowsets"):
+            h = get(fs, "header")
+            fid = get(h, "flowset_id", get(h, "header_id"))
+            b = get(fs, "body")
+            if fid == tid and b[0][0] in ("Data", "OptionsData"):
+                out.append(b)
+    return out
+
+
+def c07(case, obs, crash):
+    """meta['unknown'] : op index -> (proto, id): data for an id the parser has no template for;
+    meta['known'] : op index -> (proto, id, nrec): the same data once the template was received"""
+    f = []
+    ops = parse_ops(case)
+    last_S = {}
+    for k, (op, o) in enumerate(zip(ops, obs)):
+        if op[0] != "B":
+            continue
+        R = get(o, "R")
+        S = get(o, "S")
+        if not isinstance(R, list) or isinstance(R, canon.Pairs):
+            continue
+        if k in case.meta.get("unknown", {}):
+            proto, tid = case.meta["unknown"][k]
+            if bodies_with_id(R, proto, tid):
+                f.append((None, "op %d: data for %s id %d decoded although no template of that id is cached" % (k, proto, tid)))
+            if proto == "V9" and not (R and elem_kind(R[-1]) == "Error"):
+                f.append((None, "op %d: V9 packet with data for unknown template %d is not reported as an error" % (k, tid)))
+            if proto == "IPFix" and not any(elem_kind(e) == "IPFix" for e in R):
+                f.append((None, "op %d: IPFIX message with data for unknown template %d is not reported" % (k, tid)))
+            prev = last_S.get(op[1])
+            if prev is None:
+                prev = canon.Pairs([(m, []) for m in ("v9_t", "v9_o", "ix_t", "ix_o")])
+            exp, _v9e = expected_caches(prev, R)
+            d = caches_match(exp, S, ("v9_t", "v9_o", "ix_t", "ix_o"))
+            if d:
+                f.append((None, "op %d: data for an unknown template changed the caches beyond the templates reported in the same call: %s" % (k, d)))
+        if k in case.meta.get("known", {}):
+            proto, tid, nrec = case.meta["known"][k]
+            if not bodies_with_id(R, proto, tid):
+                f.append((None, "op %d: data for %s id %d not decoded after its template was received" % (k, proto, tid)))
+        last_S[op[1]] = S
+    return f
